@@ -505,6 +505,22 @@ pub fn rb(name: &str, b: &[u8], n: usize, ours: &Result<usize, Error>, line: &st
     let r: Result<(), String> = (|| {
         let errclass = |theirs: &encode::Error, ours: &Error| -> Result<(), String> {
             let t = rb_err_class(theirs);
+            // a segwit transaction without witnesses that is also cut before its lock time: either answer is right.
+            // "cut before its lock time" is decided on the implementation: four more bytes turn the answer into
+            // SegwitFlagWithoutWitnesses
+            if t == "SegwitFlagWithoutWitnesses" && our_err_class(ours) == "MoreBytesNeeded" {
+                let mut ext = b.to_vec();
+                ext.extend_from_slice(&[0, 0, 0, 0]);
+                let again = match name {
+                    "tx" => bsl::Transaction::parse(&ext).map(|_| ()),
+                    _ => bsl::Block::parse(&ext).map(|_| ()),
+                };
+                return if again == Err(Error::SegwitFlagWithoutWitnesses) {
+                    Err("ok:sfww-cut".into())
+                } else {
+                    Err("FAIL:error-class we:MoreBytesNeeded rust-bitcoin:SegwitFlagWithoutWitnesses (input not cut before the lock time)".into())
+                };
+            }
             if t == "Oversized" || t == "other" || t == our_err_class(ours) {
                 Ok(())
             } else {
@@ -952,8 +968,9 @@ pub fn redb_line(ctx: &Ctx, ty: &str, b: &[u8]) -> String {
                             (id == &tx.compute_txid().to_byte_array()[..] && back.txid_sha2().as_slice() == id, back.weight() == tx.weight().to_wu())
                         }) {
                             Ok((true, true)) => "ok",
-                            Ok((false, _)) => "FAIL:txid-of-rebuilt-transaction",
+                            Ok((false, true)) => "FAIL:txid-of-rebuilt-transaction",
                             Ok((true, false)) => "FAIL:weight-of-rebuilt-transaction",
+                            Ok((false, false)) => "FAIL:txid-and-weight-of-rebuilt-transaction",
                             Err(_) => "FAIL:panic",
                         }
                     }
